@@ -255,6 +255,21 @@ impl MultiState {
         }
     }
 
+    /// With bottom alignment a frame that has shrunk starts with blank lines. They are above the
+    /// first bar, so they stay on the screen together with a first bar that is reaped.
+    fn blank_lines_on_top(&self, width: usize) -> VisualLines {
+        if !matches!(self.alignment, MultiProgressAlignment::Bottom) {
+            return VisualLines::default();
+        }
+        let mut bar_lines = VisualLines::default();
+        for index in &self.ordering {
+            if let Some(state) = &self.members[*index].draw_state {
+                bar_lines += state.visual_line_count(.., width);
+            }
+        }
+        self.draw_target.last_line_count().saturating_sub(bar_lines)
+    }
+
     pub(crate) fn mark_zombie(&mut self, index: usize) {
         let width = self.width().map(usize::from);
 
@@ -276,9 +291,10 @@ impl MultiState {
             .unwrap_or_default();
 
         // Make `DrawTarget` forget about the zombie lines so that they aren't cleared on next draw.
+        let blank_lines = width.map(|width| self.blank_lines_on_top(width)).unwrap_or_default();
         let kept = self
             .draw_target
-            .adjust_last_line_count(LineAdjust::Keep(line_count));
+            .adjust_last_line_count(LineAdjust::Keep(line_count + blank_lines));
 
         // Track the total number of zombie lines on the screen (lines that did not fit the
         // terminal height were never painted)
@@ -373,6 +389,12 @@ impl MultiState {
         drop(draw_state);
         let drawable = drawable.draw();
 
+        // (counted while the reaped bars are still members: the blank lines are above them)
+        let blank_lines = match reap_indices.is_empty() {
+            true => VisualLines::default(),
+            false => self.blank_lines_on_top(width),
+        };
+
         for index in reap_indices {
             self.remove_idx(index);
         }
@@ -382,7 +404,7 @@ impl MultiState {
         if !has_text {
             let kept = self
                 .draw_target
-                .adjust_last_line_count(LineAdjust::Keep(adjust));
+                .adjust_last_line_count(LineAdjust::Keep(adjust + blank_lines));
             self.zombie_lines_count = self.zombie_lines_count.saturating_add(kept);
         }
 
